@@ -32,6 +32,15 @@ func Key(idx int) crypto.PrivKey {
 	return k
 }
 
+// StdKeyFromSeed derives the std-lib ed25519 key for a seed (hashed to 32 bytes if it has another length).
+func StdKeyFromSeed(seed []byte) ed25519.PrivateKey {
+	if len(seed) != 32 {
+		h := sha256.Sum256(seed)
+		seed = h[:]
+	}
+	return ed25519.NewKeyFromSeed(seed)
+}
+
 // KeyFromSeed derives the bifrost private key for a 32-byte seed.
 func KeyFromSeed(seed []byte) crypto.PrivKey {
 	if len(seed) != 32 {
